@@ -299,7 +299,7 @@ RULES = [
 
 
 from . import shared
-RULES = RULES + shared.bundle('C07', ['f2i', 'tablebounds', 'gauss-tables', 'intdiv', 'gpu', 'gate', 'restart', 'driver', 'values', 'stride', 'maxpd', 'norm', 'loops', 'eqvol', 'modes', 'minmax', 'fastpath', 'q0', 'mode-order', 'order-select', 'scan'], ['product', 'details', 'kernel'])
+RULES = RULES + shared.bundle('C07', ['f2i', 'tablebounds', 'gauss-tables', 'intdiv', 'gpu', 'gate', 'restart', 'driver', 'values', 'stride', 'maxpd', 'norm', 'loops', 'eqvol', 'modes', 'minmax', 'fastpath', 'q0', 'mode-order', 'order-select', 'definite-init', 'scan'], ['product', 'details', 'kernel'])
 from .. import refs as _refs
 RULES = RULES + [_refs.ref_rule('C07')]
 
